@@ -567,6 +567,18 @@ func (in *Interp) callBuiltin(caller *frame, fn *ssa.Builtin, args []value) valu
 		in.chanClose(caller.g, args[0])
 		return nil
 
+	case "clear":
+		if xs, ok := args[0].([]value); ok {
+			if st, ok := fn.Type().(*types.Signature).Params().At(0).Type().Underlying().(*types.Slice); ok {
+				for i := range xs {
+					xs[i] = zero(st.Elem())
+				}
+				return nil
+			}
+		}
+		in.unsupported("built-in clear of %T", args[0])
+		return nil
+
 	case "delete":
 		m, ok := args[0].(*smap)
 		if !ok {
